@@ -147,6 +147,7 @@ type xfSeqCase struct {
 	Limit   int64       `json:"rs_write_limit,omitempty"` // request server only: writes reaching beyond this offset are refused by the handler
 	Race    *xfRace     `json:"race,omitempty"`           // a race trial instead of a sequence
 	Pair    *xfPairRace `json:"pair,omitempty"`           // two calls leaving a barrier together, many times (c12_pairs.go)
+	Stall   *xfStall    `json:"stall,omitempty"`          // a transfer whose source/sink stalls, Close, then it goes on (c12_stall.go)
 	// Open: the mode the File is opened in ("" = rdwr; see xfOpenModeList). For the modes that empty the file file_len
 	// is the size after the open (0) and pre_open_len what the name held before.
 	Open   string `json:"open,omitempty"`
@@ -217,6 +218,9 @@ func (sc xfSeqCase) Text() string {
 	}
 	if sc.Pair != nil {
 		fmt.Fprintf(&sb, " pair %s||%s x%d n%d o%d", sc.Pair.A, sc.Pair.B, sc.Pair.Attempts, sc.Pair.N, sc.Pair.Off)
+	}
+	if sc.Stall != nil {
+		fmt.Fprintf(&sb, " stall %s seed%d", sc.Stall.text(), sc.Seed)
 	}
 	sb.WriteByte(':')
 	for _, o := range sc.Ops {
@@ -294,6 +298,16 @@ func xfReqName(t byte) string {
 		return "LSTAT(path)"
 	case wire.Fstat:
 		return "FSTAT(handle)"
+	case wire.Open:
+		return "OPEN"
+	case wire.Close:
+		return "CLOSE"
+	case wire.Read:
+		return "READ"
+	case wire.Write:
+		return "WRITE"
+	case wire.Fsetstat:
+		return "FSETSTAT"
 	}
 	return fmt.Sprintf("type %d", t)
 }
@@ -1900,6 +1914,7 @@ func checkC12(c *lib.Ctx) {
 	thorough := c.Tier == "thorough"
 	r.Rule = "(a) WriteTo offset sweep: file sizes 0..3*mp*min(conc,3)+2 x start offsets {0,1,mp,size-1,size,size+1} x UseConcurrentReads x UseFstat x (mp,conc) on the scripted peer; (b) PRNG sequences (quick ~12, thorough ~40 calls + Close + 4..18 calls after Close) of Read/ReadAt/Write/WriteAt/ReadFrom(6 source kinds)/ReadFromWithConcurrency/WriteTo/Seek(whence 0,1,2 and invalid 5,7,-1; negative targets; one in seven with an offset at the edges of int64, followed by a Seek back)/Stat/Truncate on os-backed server, request server and scripted peer (in order and permuted replies); in every second peer sequence a quarter of the read/write calls have 1-2 PRNG-chosen chunks answered with a status of code 4/3/1(SSH_FX_EOF)/8/2/255, in every second request-server sequence the handler refuses writes beyond a PRNG quota: there the reference is offset-before + the intact prefix the server side recorded as stored (ReadAt/WriteAt: unchanged) x client options (quick: every (mp,conc) pair with rotating booleans, thorough: full product), mirrored on an *os.File; (b') per server kind and option set 7 (thorough 42) written-out sequences around a disturbed NAME with the handle open (op nm: rename away / remove / rotate / replace by a shorter or longer file / directory / symlink / dangling link, a second different one later; file sizes {0,1,mp,mp+1,2mp,3mp+2}; after each: Seek(x, io.SeekEnd) for x in {0,-1,-size,-size-1 (negative result: rejected without moving),+mp+1}, append, Read, Stat, WriteTo, Truncate, ReadFrom, ReadAt/WriteAt, Close), and every third PRNG sequence draws nm steps (each followed by 0-2 end-relative seeks) among its calls: real renames/removals on the os-backed server, differing STAT/LSTAT(path) vs FSTAT(handle) answers on the request server and the scripted peer, the same done to the os.File twin's name; every Seek's requests are read off the wire (none, or exactly one FSTAT on the handle for io.SeekEnd); (b'') per option set 6 (thorough: all 96) written-out chains of offset-relative calls on ONE handle: Seek to a non-zero start, a transfer variant {ReadFromWithConcurrency(0,1,3), ReadFrom(Len/Size/Stat/LimitedReader: concurrent when UseConcurrentWrites and more than one packet; opaque: sequential), Write, WriteTo, Read} of 2-4 packets, a follower {Write, empty Write+Write, ReadFrom, ReadFromWithConcurrency, Read, WriteTo, Seek(0/1, io.SeekCurrent)}, the transfer variant again, the follower again, Seek(0, io.SeekCurrent), a third transfer, Write, Stat, Close: offset, bytes and content after every call against the os.File twin; x open mode of the File {O_RDWR, +O_CREATE, +O_APPEND, +O_TRUNC, Client.Create(), O_CREATE|O_TRUNC, O_CREATE|O_EXCL on a new name} rotating over chains and PRNG sequences (twin opened alike; O_APPEND is a no-op for the servers, so the twin is opened without it) x servers {os, rs, os+allocator, rs+allocator+max-tx 65536, os+max-tx 65536, os+allocator+max-tx 65536 (these three also with client packet size 40000), request server without sftp.OpenFileWriter (reads through the Filewrite handle must fail with the failure status, deliver nothing and leave the offset alone; writes, seeks, Stat, Truncate go on), client packet size 40000 > default max payload with concurrent reads off}; (b3) client packet size ABOVE what the server returns per READ, a chunk taking three or more READs (each asking for the rest at chunk offset + bytes so far): MaxPacketUnchecked(2*cap+1, 3*cap, 100000, 262000) against {os, rs} x {allocator off, on} with the default max payload (cap 32768) and with max-tx 65536 (quick: per server kind one size with concurrent reads off and one with them on, rotating with the seed so that the default-payload servers together see all four sizes either way; thorough: all), and packet sizes 3,4,7 (32768) against the scripted peer whose DATA replies carry at most 1,2,3 (10000) bytes x MaxConcurrentRequestsPerFile rotating; with concurrent reads OFF these configurations get all the generators above (chains, name sequences, PRNG sequences with lengths/offsets also aimed at cap, cap+1, 2cap, 2cap+1, 3cap+1, mp+2cap+1) plus xfGenCapSeq; with concurrent reads ON only xfGenCapSeq, which keeps to the refilling read paths (Read/ReadAt of at most one packet; WriteTo after the file was truncated to at most one packet = sequential after STAT). xfGenCapSeq: 6-13 (small packets: 6-17) calls of Read x4/ReadAt x3/WriteTo x2/Seek x2/Write/WriteAt/ReadFrom/Truncate/Stat + Close + calls after Close; read lengths from {1,cap-1,cap,cap+1,2cap-1,2cap,2cap+1,3cap,3cap+1,mp-1,mp} and (concurrent reads off) {mp+1,mp+cap+1,mp+2cap+1,2mp,2mp+1,2mp+2cap+1,3mp+1}, a fifth uniform; offsets from {0,1,cap-1,cap,cap+1,2cap+1,mp,mp+1,size-1,size,size+1,size-2cap-1,size-2cap,size-3cap-1,size-mp,current, and such that the read ends at / one before / one beyond end of file or its 2nd/3rd READ meets it}; file sizes {2cap+1,3cap,3cap+1,mp-1,mp,mp+1,mp+2cap+1,2mp+1,2mp+2cap+2,3mp+2}; 10 such sequences per big-packet job, 24 per small-packet job (thorough x4); the histogram (above-cap|…|data-READs-per-chunk) says how many READs the fullest chunk of each read call took; (b4) per server kind and option set 2 (thorough 8) written-out sequences of Seeks at the edges of int64 (c12_seekedge.go): the offset is made non-zero by a Read, a Write, a Seek or Read+Seek on a file of {1,2,mp,mp+1,2mp+1,3mp+2} bytes, then for whence start, current, end every offset of {MaxInt64, MaxInt64-1, MinInt64, MinInt64+1, +-2^62, +-2^32, 2^32-1, 2^31, MaxInt64-base, MaxInt64-base+-1, -base, -base+-1, MaxInt64/2(+1), MinInt64/2} (base = 0 / current offset / size); after a seek that was taken far out, current-relative steps to and across MaxInt64 (+1, MaxInt64-offset, +1; MaxInt64; MinInt64, -offset-1), then back to a small non-zero offset by one of three routes; finally Read, Write, Close, Seeks after Close. Reference: the os.File twin where its file system takes the target, else (and while the File stands at such a position) the arithmetic itself: target = base + offset over the integers must be taken iff it is a non-negative int64, else refused with os.ErrInvalid without moving (Seek(0, io.SeekCurrent) asked after every call); (c) Close raced by 2 closers against 3..8 goroutines of ReadAt/WriteAt/Stat/Truncate on the scripted peer with the raw request stream parsed (c') two calls on ONE fresh File leaving a spin barrier at the same moment (in most attempts of the pairs other than Close||Close one side starts 40-5000 atomic increments late, either side), 150 attempts per job (Close||Close: 2000; 32 KiB packets: a quarter), on the scripted peer which counts the requests per handle: Close||Close x 6 option sets, Close||{Read, Write, Seek(start), Seek(end), Stat, ReadAt, WriteAt, Truncate, WriteTo, ReadFrom} and Seek||Read, Seek||Write, Seek||Seek, Read||Read, Write||Write, Read||Write x 2 option sets (thorough x4), lengths {1, mp, mp+1, 2mp+1} on a file of 3mp+2 bytes: exactly one CLOSE request and no request with the closed handle after it, {nil, os.ErrClosed} for two Closes, os.ErrClosed or the call's own result beside a Close, the results + final offset + content of one of the two orders for two offset-moving calls, os.ErrClosed from every method afterwards; non-trivial = a sequence that moves the offset through at least two different methods; distinct by the whole case text"
 	r.Rule += "; (b5) the request server over the package's OWN example backend sftp.InMemHandler() (xfer_inmem.go) gets the chains, the seek-edge sequences and the PRNG sequences too (no name disturbances: its names are its own; 32 KiB packets with at most 3 requests per file); (b6) per server kind and option set 2 (thorough 6) HISTORIES of one file (xfer_hist.go: data up to hi, shrink by Truncate / Close + open again with O_TRUNC / Create() / the open of the sequence itself, a sparse write beyond the new end by WriteAt / Seek+Write / Seek+ReadFrom / Seek+ReadFromWithConcurrency, everything read back; op ro = Close + open the same name again, on the twin alike: exactly one CLOSE per handle); (d) the reply to the CLOSE request itself (c12_closereply.go), 2 (thorough 12) sequences per scripted-peer and request-server job: after 0-3 calls that leave the offset non-zero the CLOSE is answered with a failure status of code {4,3,2,256,5,6,7,8,255,1,2^32-1,257} (scripted peer, 4 of 5), the connection is cut instead of an answer (scripted peer, 1 of 5), or the file object of the request server's handler fails its Close() with one of the 29 error values of xfHandlerErrs (opens served by OpenFile, and by Filewrite when FilePut is no OpenFileWriter); the handle is released by the server when the request arrives, so: that first Close returns the server's failure (cut: an error of its own), and then EVERY File method once in a PRNG order - Read x2, ReadAt x2, Write x2, WriteAt x2, ReadFrom x3, ReadFromWithConcurrency, WriteTo, Seek x5, Stat, Truncate x2, Chmod, Chown, Sync, Close, and one more Close at the end - must return os.ErrClosed (the os.File twin agrees), exactly one CLOSE request was sent and no request naming the released handle reached the peer; the status codes of failing chunks inside sequences now include 256, 257 and 0xFFFFFF01"
+	r.Rule += "; (e) transfers whose SOURCE or SINK stalls (c12_stall.go), scripted peer, per option set 16 (thorough 60) cases, each option set in a child process of its own (a goroutine left behind by a call may also panic: then the case the child was running is the failing input): ReadFromWithConcurrency(r, 0/1/2/3/5), ReadFrom(r) with r opaque / Len() / Size() / *io.LimitedReader (concurrent when UseConcurrentWrites and more than a packet is announced), WriteTo(w) x the server refuses {every chunk, the first, the last before the stall, a PRNG subset, none} of the call's chunk plan with status 4/3/8/2/255/256 (all 60 combinations in 60 consecutive cases), replies in order or permuted; the source hands out 0..4 (now and then up to 2*conc+6) whole packets, +0/+1/+mp-1 bytes, in pieces of 1/2/3/mp/mp+1 bytes or as asked, and then BLOCKS in Read until released (the sink: in Write), after which it goes on for 0/1/mp/mp+1/2mp+1/3mp more bytes, ends, or fails; start offset 0 or {1,mp,mp+1,2mp+1}; Close is called beside the stalled call (a third) or when the call has returned; for 20 ms the harness watches whether the call (or that Close) returns although the source is still blocked - then the File is closed at once, as an application may; then the source/sink is released, call and Close are waited for (hang budget), and after a settle period (the released Read has returned, 4 ms, two STAT round trips) the wire order recorded by the peer and parsed again from the raw byte stream must show exactly one CLOSE, Close == nil, and NOTHING naming the handle after the CLOSE frame (requests written before it are fine), and one more method must answer os.ErrClosed; non-trivial = the stall is reached with a refusal, a failing/ending source or a Close beside the call"
 	model := xfProbeModel(c)
 	xfProbeDefects(&model)
 	r.Note("client packet sizes above the server's max payload are asked on the REFILLING read paths only (Read/ReadAt of at most one packet, every read with UseConcurrentReads(false), sequential WriteTo): the concurrent readers take a short DATA reply for end of file, so with concurrent reads on and such a packet size ReadAt of several packets and WriteTo of a larger file lose data on the unchanged code - outside C01's quantifier (\"as long as the client's packet size does not exceed the server's maximum payload\"), not asked and not reported here")
@@ -1920,7 +1935,11 @@ func checkC12(c *lib.Ctx) {
 			if strings.Contains(f.Key, "setup") || strings.Contains(f.Key, "/twin") {
 				kind = "tie"
 			}
-			res.Fail(lib.Failure{Kind: kind, Key: f.Key, What: fmt.Sprintf("%s (call #%d)", f.What, f.At), Input: sc, Expected: f.Expected, Actual: f.Actual})
+			what := f.What
+			if sc.Stall == nil {
+				what = fmt.Sprintf("%s (call #%d)", f.What, f.At)
+			}
+			res.Fail(lib.Failure{Kind: kind, Key: f.Key, What: what, Input: sc, Expected: f.Expected, Actual: f.Actual})
 		}
 	}
 	addModel := func(sc xfSeqCase, sr xfSeqResult) {
@@ -1958,10 +1977,16 @@ func checkC12(c *lib.Ctx) {
 		}
 		for _, raw := range inputs {
 			var sc xfSeqCase
-			if err := json.Unmarshal(raw, &sc); err != nil || (len(sc.Ops) == 0 && sc.Race == nil && sc.Pair == nil) {
+			if err := json.Unmarshal(raw, &sc); err != nil || (len(sc.Ops) == 0 && sc.Race == nil && sc.Pair == nil && sc.Stall == nil) {
 				continue
 			}
 			res.Case(sc.Text(), true)
+			if sc.Stall != nil {
+				if err := xfStallExec([]xfSeqCase{sc}, false, root, "replay", func(sc xfSeqCase, fs []xfSeqFailure, _ []string, _ bool) { report(sc, fs) }); err != nil {
+					r.Note("replay: %v", err)
+				}
+				continue
+			}
 			if sc.Pair != nil {
 				fs, _ := xfRunPairs(sc, nil)
 				report(sc, fs)
@@ -2524,6 +2549,52 @@ func checkC12(c *lib.Ctx) {
 			report(sc, fs)
 		})
 		r.Note("pair races: %d attempts of two calls leaving a spin barrier together on a fresh File (histogram pair=...: which order each attempt showed)", attempts)
+	}
+	// (e) transfers whose source or sink stalls; Close; the source/sink goes on (c12_stall.go)
+	{
+		cfgs := xfCoverCfgs(rot + 5)
+		per := 16
+		if thorough {
+			cfgs, per = xfAllCfgs(), 60
+		}
+		var sj [][]xfSeqCase
+		for ji, cfg := range cfgs {
+			rng := rand.New(rand.NewSource(c.Rand.Int63()))
+			var cases []xfSeqCase
+			for i := 0; i < per; i++ {
+				cases = append(cases, xfGenStall(rng, cfg, ji*per+i+rot))
+			}
+			sj = append(sj, cases)
+		}
+		var early, stalled, notRun int64
+		xfParallel(len(sj), runtime.GOMAXPROCS(0), func(w, ji int) {
+			err := xfStallExec(sj[ji], true, root, fmt.Sprint(ji), func(sc xfSeqCase, fs []xfSeqFailure, marks []string, ran bool) {
+				if !ran && len(fs) == 0 {
+					atomic.AddInt64(&notRun, 1)
+					return
+				}
+				if ran {
+					res.Case(sc.Text(), xfStallNontrivial(sc))
+					res.Hist(marks...)
+					for _, m := range marks {
+						if strings.HasPrefix(m, "stall|returned-while") {
+							atomic.AddInt64(&early, 1)
+						}
+						if strings.HasPrefix(m, "stall|outcome=source/sink blocked") {
+							atomic.AddInt64(&stalled, 1)
+						}
+					}
+					if atomic.AddInt32(&sampleN, 1) <= 5 {
+						res.Sample(sc)
+					}
+				}
+				report(sc, fs)
+			})
+			if err != nil {
+				res.Note("stalled transfers, option set %s: %v", cfgs[ji], err)
+			}
+		})
+		r.Note("stalled transfers: %d cases reached the stall with the call under way; in %d of them the call (or a Close beside it) returned while the source/sink was still blocked; %d cases not run (budgets)", stalled, early, notRun)
 	}
 	mc.compare(c, "c12")
 }
